@@ -10,6 +10,8 @@ package ws
 //@   immutable: ws proto addr iswss dtype
 //@
 //@ struct listener
+//@   nullable: bound
+//@   method_invariant anon ==> bound != nil
 //@   lock lock level 50
 //@   guarded_by lock: pending running closed
 //@   cond cv uses lock
@@ -114,3 +116,7 @@ package ws
 //@   ensures isnil(result1) ==> cast("*dialer", result0).addr == addr && has(cast("*dialer", result0).opts, mangos.OptionMaxRecvSize) && cast("*dialer", result0).opts[mangos.OptionMaxRecvSize] == iface(0)
 //@   ensures isnil(result1) ==> cast("*dialer", result0).opts[mangos.OptionNoDelay] == iface(true)
 //@   ensures !isnil(result1) ==> result1 == mangos.ErrBadTran && isnil(result0)
+
+// ---- C12: a listener whose Listen failed still answers Address() ----
+//@ func (*listener).Listen
+//@   at go:Listen$1#1 assume l.bound != nil
